@@ -91,7 +91,20 @@ def one(ctx: Ctx, cs, pname=None, **over):
             kind_at[(c.line, c.col)] = c.kind
     clef_ok = CX.all_notes_have_clef(doc)
     nontriv = any(c.kind == 'chord' and any(n.sigs for n in c.obj.notes[:-1]) for ln in doc.lines for c in ln.cells)
+    first_views = {name: kpx.dumps(d, encoding=enc) for name, enc in kpx.ENC_BY_NAME.items()}
     relations(ctx, d, doc, rows, kind_at, clef_ok, SELECTIONS, {'case_seed': cs, 'profile': pname, 'over': over, 'text': x}, 'imported')
+    # the six views are views of ONE document: taken again after all the other exports (basic ones included) they are what they were
+    for name, enc in kpx.ENC_BY_NAME.items():
+        ctx.ev()
+        ctx.mon('views_retaken')
+        again = kpx.dumps(d, encoding=enc)
+        if not kpx.same_outcome(first_views[name][0], first_views[name][1], again[0], again[1]):
+            a_, b_ = (first_views[name][0] or '').split('\n'), (again[0] or '').split('\n')
+            j = next((i for i, (p_, q_) in enumerate(zip(a_, b_)) if p_ != q_), min(len(a_), len(b_)))
+            ctx.violation('view-changed-by-other-views', f'the {name} view taken before and after the other exports of the same Document '
+                          f'differs at line {j + 1}: {a_[j] if j < len(a_) else "<end>"!r} vs {b_[j] if j < len(b_) else "<end>"!r}',
+                          {'case_seed': cs, 'profile': pname, 'over': over, 'text': x})
+            break
     # derived documents are documents too: the result of a transposition (same grid, same cell kinds)
     if cs % 3 == 0:
         import random
